@@ -255,21 +255,10 @@ theorem delete_other_org_unaffected (org : Org) (name : Name) (T : List (Org × 
     (o : Org) (ho : o ≠ org) (expr : Name) (es : Bool) :
     expand expr o es (deleteTable org name T) A = expand expr o es T A := by
   have ht : tablesOf o (deleteTable org name T) = tablesOf o T := by
-    induction T with
-    | nil => rfl
-    | cons p r ih =>
-      obtain ⟨po, pn⟩ := p
-      by_cases hp : po = o
-      · have hne : ¬ po = org := fun h => ho (hp.symm.trans h)
-        simp only [tablesOf, deleteTable] at ih ⊢
-        simp [List.filter_cons, hne, hp, ih]
-      · simp only [tablesOf, deleteTable] at ih ⊢
-        by_cases hd : po = org ∧ pn = name
-        · simp [List.filter_cons, hd, hp, ih]
-          intro h; exact absurd (hd.1.symm.trans h |> fun h' => h') (fun h' => hp (hd.1.trans h'))
-        · have : (decide (po = org) && decide (pn = name)) = false := by
-            simpa using hd
-          simp [List.filter_cons, this, hp, ih]
+    apply tablesOf_filter
+    intro p _ hp
+    have : ¬ p.1 = org := fun h => ho (hp.symm.trans h)
+    simp [this]
   have he : expandElem o (deleteTable org name T) A = expandElem o T A := by
     funext elem
     simp only [expandElem, ht]
